@@ -328,7 +328,12 @@ func (m *fmtMarkers) splice(i *interpreter, s string) value {
 		case string:
 			out = append(out, strBytes(v)...)
 		case sym:
-			out = append(out, i.decimalSeg(v))
+			switch d := i.decimalSeg(v).(type) {
+			case symstr:
+				out = append(out, d.b...)
+			default:
+				out = append(out, d)
+			}
 		}
 		s = rest[e+1:]
 	}
@@ -538,7 +543,8 @@ func (i *interpreter) decimalSeg(v sym) value {
 	tt := i.tt()
 	if kindSigned(v.k) {
 		if i.ps.branch(tt.Cmp("slt", v.t, tt.Const(v.t.w, 0))) {
-			panic(engineError("decimal rendering of a negative symbolic integer"))
+			// "-" followed by the magnitude
+			return symstr{[]value{uint8('-'), decSeg{tt.Un("bvneg", tt.SExt(64, v.t))}}}
 		}
 	}
 	return decSeg{tt.ZExt(64, v.t)}
